@@ -117,7 +117,9 @@ def marker_history(rng, cfg):
              {"op": "chmod", "name": "/%s/%s" % (d, nn), "perm": 0o600}, {"op": "chown", "name": "/" + d, "uid": 4242, "gid": 4343},
              {"op": "writefile", "name": "/%s/%s" % (d, f), "flags": hist.O_WRONLY | hist.O_APPEND, "perm": 0o644, "blob": 2},
              {"op": "mkdirall", "name": "/%s/x/%s" % (d, g), "perm": 0o700}, {"op": "remove", "name": "/%s/%s" % (d, nn)}, {"op": "removeall", "name": "/%s/x" % d},
-             {"op": "createfile", "name": "/%s/e0" % d, "blob": 3}, {"op": "mkdir", "name": "/%s/sub" % d, "perm": 0o755}]
+             {"op": "createfile", "name": "/%s/e0" % d, "blob": 3}, {"op": "mkdir", "name": "/%s/sub" % d, "perm": 0o755},
+             # a symbolic link: its own path and its target are names too
+             {"op": "symlink", "name": "/%s/%s" % (d, f), "name2": "/%s/sub/L%s" % (d, nn)}]
     # blob k (seed k+1) embeds marker k
     return {"history": {"config": cfg, "blobs": [{"seed": 1, "len": rng.choice([60, 700, 3000])}, {"seed": 2, "len": 40}, {"seed": 3, "len": 600}, {"seed": 4, "len": 0}], "obs": [], "calls": calls},
             "markers": ms}
